@@ -2,4 +2,5 @@ MODULES = [
     'contracts.c_cpu_arith',
     'contracts.c_memlayout',
     'contracts.c_memory',
+    'contracts.c_data',
 ]
